@@ -714,10 +714,32 @@ impl<'a> Gen<'a> {
         self.reserved.insert(f);
         // signals parked while the ring is full are only guaranteed while the thread lives
         self.no_exit.insert(t);
+        // sometimes many traces end during the episode: their finish / cancel signals are all parked
+        let mass: Vec<u32> = if self.rng.chance(1, 3) {
+            let m = self.rng.range(18, 70);
+            (0..m)
+                .map(|_| {
+                    let l = new_span_label();
+                    let tid = self.fresh_tid();
+                    self.push(t, Op::Root { l, trace_id: tid, parent: 3, sampled: true, np: 0, k0: 0 });
+                    self.reserved.insert(l);
+                    l
+                })
+                .collect()
+        } else {
+            vec![]
+        };
         let hold_from = self.prog.ops.len();
         // 64 sends of an operation may be interleaved with cycles; the rest refills the ring
         let extra = self.rng.range(1, 200) as u32;
         self.push(t, Op::Fill { span: f, n: 10_240 + 64 + extra });
+        for l in mass {
+            if self.rng.chance(1, 5) {
+                self.push(t, Op::Cancel { span: l });
+            }
+            self.push(t, Op::Finish { span: l });
+            self.reserved.remove(&l);
+        }
         let n2 = self.rng.range(3, 18);
         for _ in 0..n2 {
             // mostly the flooded thread; others keep working normally
